@@ -73,3 +73,134 @@ Theorem C01_collector_terminates : forall g fl maxd root univ sched,
   Verif.Imports.Faults.ftasks (Verif.Imports.Faults.frun Verif.Gen.ImportRules.current_rules g fl maxd root sched) = [].
 Proof. exact Verif.Imports.CurrentFaults.faults_terminate_current. Qed.
 Print Assumptions C01_collector_terminates.
+
+(* ---- "never kills the host process": logrus.Fatal* / log.Fatal* / os.Exit on the compile path ----
+   Gen/KillSites.v (regenerated on every run) lists every such call in every non-test file of the packages the
+   parser imports, transitively. Three exist. Two are the linter's (pkg/parse/linter.go recordApp / recordEndpoint,
+   reached when one location is recorded twice); the record graph is modelled in Total/Linter.v and the Fatal branches
+   are proved unreachable for the recordings one walk per file of the closure produces. The third (importer
+   writer.mustWrite) is guarded by the error of a Write to the writer's sink, which the table shows to be a
+   *bytes.Buffer at every construction (bytes.Buffer.Write returns a nil error: Go standard library, trusted). *)
+Require Verif.Total.KillTypes Verif.Total.Linter Verif.Total.LinterProps Verif.Total.KillCurrent Verif.Gen.KillSites.
+Require Import Coq.Strings.String.   (* after every use of List.length above *)
+
+Theorem C01_kill_sites_current : Verif.Gen.KillSites.kill_sites = Verif.Total.KillCurrent.expected_kill_sites.
+Proof. exact Verif.Total.KillCurrent.kill_sites_current. Qed.
+Print Assumptions C01_kill_sites_current.
+
+Theorem C01_every_kill_site_discharged :
+  forallb Verif.Total.KillCurrent.discharged Verif.Gen.KillSites.kill_sites = true /\
+  forallb (fun p => String.eqb (snd p) "*bytes.Buffer") Verif.Gen.KillSites.writer_sinks = true /\
+  Verif.Gen.KillSites.writer_built_in = ["newWriter"%string].
+Proof. exact (conj Verif.Total.KillCurrent.every_kill_site_discharged Verif.Total.KillCurrent.writer_sinks_are_buffers). Qed.
+Print Assumptions C01_every_kill_site_discharged.
+
+Theorem C01_record_sites_current :
+  Verif.Gen.KillSites.record_sites =
+    [("EnterCall_stmt", "recordCall", true); ("EnterCall_stmt", "recordCall", true); ("EnterMethod_def", "recordMethod", true);
+     ("EnterSimple_endpoint", "recordEndpoint", true); ("EnterApp_decl", "recordApp", true)]%string /\
+  (Verif.Gen.KillSites.loc_format = "%s:%d:%d" /\ Verif.Gen.KillSites.loc_args = "s.sc.filename,lineNum,colNum" /\
+   Verif.Gen.KillSites.loc_is_token_line_col = true /\ Verif.Gen.KillSites.apps_key_is_lowercased_name = true /\
+   Verif.Gen.KillSites.one_listener_per_parse = true /\ Verif.Gen.KillSites.each_spec_walked_once = true /\
+   Verif.Gen.KillSites.sc_filename_is_clean_src_name = true)%string.
+Proof. exact (conj Verif.Total.KillCurrent.record_sites_current Verif.Total.KillCurrent.location_facts_current). Qed.
+Print Assumptions C01_record_sites_current.
+
+(* the linter finishes - no Fatal, no nil dereference - on EVERY sequence of recordings in which no application
+   location and no endpoint / method location repeats and every endpoint is recorded inside an application
+   recorded before; for any lower-casing function *)
+Theorem C01_linter_never_kills : forall lower evs,
+  Verif.Total.LinterProps.wf_events evs -> exists st ws, Verif.Total.Linter.lint_all lower evs = Verif.Total.Linter.SOk st ws.
+Proof. exact Verif.Total.LinterProps.lint_never_kills. Qed.
+Print Assumptions C01_linter_never_kills.
+
+(* recordAsCall's "this isn't possible" branch aside, it never dereferences a missing map entry: every graph, every call *)
+Theorem C01_record_as_call_no_nil : forall g a e m l, fst (Verif.Total.Linter.record_as_call g a e m l) <> None.
+Proof. exact Verif.Total.LinterProps.record_as_call_no_nil. Qed.
+Print Assumptions C01_record_as_call_no_nil.
+
+(* the recordings of a closure are well-formed when its files are walked under pairwise distinct names and no two
+   application bodies / endpoint or method definitions of one file start at the same position *)
+Theorem C01_closure_recordings_wf : forall ws,
+  NoDup (map fst ws) ->
+  Forall (fun w => NoDup (Verif.Total.Linter.app_pos (snd w)) /\ NoDup (Verif.Total.Linter.ep_pos (snd w))) ws ->
+  Verif.Total.LinterProps.wf_events (Verif.Total.Linter.closure_events ws).
+Proof. exact Verif.Total.LinterProps.closure_events_wf. Qed.
+Print Assumptions C01_closure_recordings_wf.
+
+(* the invariant the parser provides, over the import model of C05 with the CURRENT rules: flattenSpecs hands
+   parseSpecs every index once - every import graph, every schedule, every depth limit *)
+Theorem C01_each_index_walked_once : forall g root maxd sched l,
+  Verif.Imports.Collect.quiescent (Verif.Imports.Collect.run Verif.Gen.ImportRules.current_rules g maxd root sched) = true ->
+  Verif.Imports.Current.final_cur g root maxd sched = Some l -> NoDup l.
+Proof. exact Verif.Total.KillCurrent.flatten_lists_each_index_once. Qed.
+Print Assumptions C01_each_index_walked_once.
+
+(* composition: whatever the import graph, the schedule, the depth limit and the content of the files, the linter of
+   one Parser.Parse never reaches logrus.Fatal *)
+Theorem C01_linter_never_kills_closure : forall lower g root maxd sched l (src_of:Verif.Imports.Collect.idx -> string) content,
+  Verif.Imports.Collect.quiescent (Verif.Imports.Collect.run Verif.Gen.ImportRules.current_rules g maxd root sched) = true ->
+  Verif.Imports.Current.final_cur g root maxd sched = Some l ->
+  (forall i j, Verif.Imports.Index.index_of Verif.Gen.ImportRules.current_rules (src_of i) =
+               Verif.Imports.Index.index_of Verif.Gen.ImportRules.current_rules (src_of j) -> i = j) ->
+  (forall i, NoDup (Verif.Total.Linter.app_pos (content i)) /\ NoDup (Verif.Total.Linter.ep_pos (content i))) ->
+  exists st ws, Verif.Total.Linter.lint_all lower
+    (Verif.Total.Linter.closure_events (combine (map Verif.Imports.Index.replace_bs (map src_of l)) (map content l))) = Verif.Total.Linter.SOk st ws.
+Proof. exact Verif.Total.KillCurrent.linter_never_kills_current. Qed.
+Print Assumptions C01_linter_never_kills_closure.
+
+(* necessity: recording one application body twice - a second walk of a file under the same name - ends in
+   logrus.Fatal whatever well-formed recordings lie in between *)
+Theorem C01_double_walk_kills : forall lower a l mid,
+  Verif.Total.LinterProps.wf_events (Verif.Total.Linter.EvApp a l :: mid) ->
+  Verif.Total.Linter.lint_all lower (Verif.Total.Linter.EvApp a l :: mid ++ [Verif.Total.Linter.EvApp a l]) =
+    Verif.Total.Linter.SFatal Verif.Total.Linter.KRecordApp Verif.Total.Linter.EAppExists.
+Proof. exact Verif.Total.LinterProps.double_recording_kills. Qed.
+Print Assumptions C01_double_walk_kills.
+
+(* ---- more of the listener's abort sites in the exact predictor: MustUnescape (pkg/parse/utils.go) ----
+   url.PathUnescape + panic on error, reached with unrestricted text from `return <text>` (EnterRet_stmt) and from the
+   endpoint of a call statement (EnterCall_stmt). Model: Total/Unescape.v; stream unescape-form compares, per text,
+   Panic-under-recover (ParseError "cannot be processed") or the exact bytes stored in the statement. *)
+Require Verif.Total.Unescape Verif.Total.UnescapeProps.
+
+(* MustUnescape panics exactly when the text is not a sequence of plain bytes and well-formed %XX escapes ... *)
+Theorem C01_unescape_panics_iff : forall s,
+  Verif.Total.Unescape.unescape s = Panic <-> ~ Verif.Total.UnescapeProps.wf_esc s.
+Proof. exact Verif.Total.UnescapeProps.unescape_panics_iff. Qed.
+Print Assumptions C01_unescape_panics_iff.
+
+(* ... which the decidable predictor computes; TrimSpace plays no part *)
+Theorem C01_must_unescape_predictor : forall s,
+  Verif.Total.Unescape.must_unescape s = Panic <-> Verif.Total.Unescape.bad_escape s = true.
+Proof. exact Verif.Total.UnescapeProps.must_unescape_panics_iff. Qed.
+Print Assumptions C01_must_unescape_predictor.
+
+(* a text made of the characters of the lexer's Name token - ('%' HEX HEX)* [a-zA-Z_] ([-a-zA-Z0-9_] | '%' HEX HEX)* -
+   never makes MustUnescape panic: a bad escape can only arrive through the free-text tokens *)
+Theorem C01_name_token_never_panics : forall s,
+  Verif.Total.UnescapeProps.name_like s -> exists t, Verif.Total.Unescape.must_unescape s = Ok t.
+Proof. exact Verif.Total.UnescapeProps.name_token_never_panics. Qed.
+Print Assumptions C01_name_token_never_panics.
+
+(* ExitLiteral (integer literals of view expressions): panic exactly when the digits exceed MaxInt64, else that value *)
+Theorem C01_literal_predictor : forall s z, s <> EmptyString -> Verif.Total.Unescape.digits_val s 0 = Some z ->
+  (Verif.Total.Unescape.literal_int s = Panic <-> int64_max < z) /\
+  (forall v, Verif.Total.Unescape.literal_int s = Ok v -> v = z /\ 0 <= v <= int64_max).
+Proof. exact Verif.Total.UnescapeProps.literal_int_panics_iff. Qed.
+Print Assumptions C01_literal_predictor.
+
+(* ---- the hang side: every hand-written loop / recursion of the parser proper, from the current source ---- *)
+Require Verif.Total.LoopCurrent Verif.Gen.LoopSites Verif.Imports.FlattenProps.
+
+Theorem C01_parser_loops_current :
+  Verif.Gen.LoopSites.loop_sites_parser =
+    map (fun r => (fst (fst (fst r)), snd (fst (fst r)), snd (fst r))) Verif.Total.LoopCurrent.parser_loop_status.
+Proof. exact Verif.Total.LoopCurrent.loop_sites_parser_current. Qed.
+Print Assumptions C01_parser_loops_current.
+
+(* flattenSpecs (recursive) ends on every retrieved map: the fuel 2 + number of entries is never exhausted *)
+Theorem C01_flatten_terminates : forall g root maxd sched,
+  exists l, Verif.Imports.FlattenProps.final g root maxd sched = Some l.
+Proof. exact Verif.Imports.FlattenProps.flatten_total. Qed.
+Print Assumptions C01_flatten_terminates.
